@@ -195,6 +195,8 @@ func (ex *Exec) harnessPrim(st *State, fn *ssa.Function, args []Value, in *ssa.C
 		setRes(st, in, Ite(args[0].(*Term), args[1].(*Term), args[2].(*Term)))
 	case "vLiveContext":
 		setRes(st, in, IfaceV{T: in.Type(), V: OpaqueV{"ctxlive", 0}})
+	case "vTickers":
+		st.tickMask, st.tickBudget, st.tickSeq = int(args[0].(*Term).Val), int(args[1].(*Term).Val), 0
 	case "vUnsafeClass":
 		st.unsafeClass = int(args[0].(*Term).Val)
 	case "vOutUnsafe":
@@ -855,9 +857,21 @@ func init() {
 			setRes(st, in, IfaceV{T: in.Type(), V: OpaqueV{"ctx", 0}})
 			return true
 		},
+		"(*net/http.Request).Context": func(ex *Exec, st *State, args []Value, in *ssa.Call, pos token.Pos) bool {
+			setRes(st, in, IfaceV{T: in.Type(), V: OpaqueV{"ctx", 0}})
+			return true
+		},
 		"time.NewTicker": func(ex *Exec, st *State, args []Value, in *ssa.Call, pos token.Pos) bool {
 			et := in.Type().Underlying().(*types.Pointer).Elem()
-			setRes(st, in, PtrV{Obj: ex.newObj(st, zeroValue(et))})
+			z := zeroValue(et).(StructV)
+			if st.tickMask&(1<<uint(st.tickSeq)) != 0 {
+				// a live ticker (vTickers): its channel is an environment channel that delivers a bounded number of ticks
+				f := append([]Value(nil), z.F...)
+				f[0] = ChanV{ex.newObj(st, ChanState{Env: true, Budget: st.tickBudget})}
+				z = StructV{f}
+			}
+			st.tickSeq++
+			setRes(st, in, PtrV{Obj: ex.newObj(st, z)})
 			return true
 		},
 		"(*sync.WaitGroup).Add": func(ex *Exec, st *State, args []Value, in *ssa.Call, pos token.Pos) bool {
